@@ -194,8 +194,15 @@ pub fn dry_run(scn: &Scenario, pol: &ScriptPolicy, r: &mut Rng) -> (History, Vec
     let mut rr = r.fork("answers");
     let pol = pol.clone();
     let mut closed = false;
+    let mut served = 0usize;
     let adaptive: world::Adaptive = Box::new(move |who, regs, mem| {
         if closed {
+            return None;
+        }
+        // a session that keeps asking is cut short: input ends after 600 lines
+        served += 1;
+        if served > 600 {
+            closed = true;
             return None;
         }
         if rr.chance(pol.eof_pct) {
